@@ -119,3 +119,56 @@ func harnessC22Witness() {
 		verif_assert(false, "witness")
 	}
 }
+
+// ---- the association is created with the address the client announced ----
+
+type c22Creator struct {
+	s5UDP
+	created int
+	client  *net.UDPAddr
+}
+
+func (u *c22Creator) IsUDPEnabled() bool { return true }
+func (u *c22Creator) CreateUDPAssociation(ctx context.Context, clientAddr *net.UDPAddr) (uint64, error) {
+	u.created++
+	u.client = clientAddr
+	return 0, errors.New("harness: association recorded")
+}
+
+var c22NewAssoc *UDPAssociation
+
+// replacement for NewUDPAssociation (no socket in the model)
+func c22NewUDPAssociation(tcpConn net.Conn, handler UDPAssociationHandler, bindIP net.IP) (*UDPAssociation, error) {
+	ctx, cancel := context.WithCancel(context.Background())
+	c22NewAssoc = &UDPAssociation{TCPConn: tcpConn, Handler: handler, ctx: ctx, cancel: cancel}
+	return c22NewAssoc, nil
+}
+
+// a UDP ASSOCIATE request that names a concrete client address makes the
+// relay filter on that address, whatever port it names
+func harnessC22Associate() {
+	u := &c22Creator{}
+	h := NewHandler([]Authenticator{&NoAuthAuthenticator{}}, &s5Dialer{})
+	h.SetUDPHandler(u)
+	ip := verif_nondet_bytes(4)
+	port := verif_nondet_u16()
+	in := []byte{5, 1, 0, 5, CmdUDPAssociate, 0, AddrTypeIPv4, ip[0], ip[1], ip[2], ip[3], byte(port >> 8), byte(port)}
+	c22NewAssoc = nil
+	c := &s5Conn{in: in}
+	h.Handle(c)
+	verif_reach("C22/associate")
+	verif_assert(u.created == 1 && c22NewAssoc != nil, "C22/associate-not-processed")
+	if c22NewAssoc == nil {
+		return
+	}
+	unspecified := ip[0] == 0 && ip[1] == 0 && ip[2] == 0 && ip[3] == 0
+	exp := c22NewAssoc.ExpectedClientAddr
+	if unspecified {
+		return
+	}
+	verif_reach("C22/associate-announced")
+	verif_assert(exp != nil && u.client != nil, "C22/announced-client-address-not-enforced")
+	if exp != nil {
+		verif_assert(len(exp.IP) >= 4 && exp.IP[len(exp.IP)-4] == ip[0] && exp.IP[len(exp.IP)-1] == ip[3] && exp.Port == int(port), "C22/announced-client-address-altered")
+	}
+}
